@@ -1,2 +1,123 @@
-/-! Stub driver: the model driver for this property is not built yet. -/
-def main : IO Unit := IO.println "unimplemented"
+import JoblibModel.DumpLoad
+import JoblibModel.IOUtil
+/-! Driver for C03 (model `JoblibModel.DumpLoad`). One request per line:
+
+* `resolve <arg> <target>` → `ok raw` | `ok codec <name> <level|default>` | `err <ValueError|TypeError>`
+  (`dumpHeader`: the ladder of `dump` + `_write_fileobject`)
+  `<arg>`    : `val:<lvl>` | `str:<s>` | `tuple2:<m>:<lvl>` | `tupleN:<n>` (n ≠ 2)
+  `<lvl>`    : `none` | `true` | `false` | `int=<n>` | `float=<n>` (integral float) | `other`
+  `<m>`      : `s=<s>` | `hashable` | `unhashable`
+  `<target>` : `path:<s>` | `pathlib:<s>` | `file` | `bytesio` | `other`
+  `<s>`      : code points in decimal joined by `.`, `-` for the empty string
+* `detect <hex>` → `compat` | `method <name>` | `not-compressed`   (`_detect_compressor` on these first bytes)
+* `start <hex>`  → `yes` | `no`                                     (`isPickleStart`)
+* `tables`       → the generated tables the driver was built from
+Anything else → `bad-op`. -/
+open JoblibModel JoblibModel.DumpLoad JoblibModel.Generated JoblibModel.IOUtil
+
+def parseStr (t : String) : Option String :=
+  if t = "-" then some ""
+  else
+    let parts := t.splitOn "."
+    parts.foldl (fun acc p => do
+      let a ← acc
+      let n ← p.toNat?
+      if n < 0x110000 then pure (a.push (Char.ofNat n)) else none) (some "")
+
+def parseLvl (t : String) : Option PyLevel :=
+  if t = "none" then some .none
+  else if t = "true" then some (.bool true)
+  else if t = "false" then some (.bool false)
+  else if t = "other" then some .other
+  else match t.splitOn "=" with
+    | ["int", n] => n.toInt?.map .int
+    | ["float", n] => n.toInt?.map .float
+    | _ => none
+
+def parseMethod (t : String) : Option PyMethod :=
+  if t = "hashable" then some .hashable
+  else if t = "unhashable" then some .unhashable
+  else match t.splitOn "=" with
+    | ["s", s] => (parseStr s).map .str
+    | _ => none
+
+def parseArg? (t : String) : Option CompressArg :=
+  match t.splitOn ":" with
+  | ["val", l] => (parseLvl l).map .val
+  | ["str", s] => (parseStr s).map .str
+  | ["tuple2", m, l] => do
+    let m ← parseMethod m
+    let l ← parseLvl l
+    pure (.tuple2 m l)
+  | ["tupleN", n] => do
+    let n ← n.toNat?
+    if n = 2 then none else pure (.tupleN n)
+  | _ => none
+
+def parseTarget (t : String) : Option Target :=
+  match t.splitOn ":" with
+  | ["path", s] => (parseStr s).map .path
+  | ["pathlib", s] => (parseStr s).map .path     -- `filename = str(filename)`
+  | ["file"] => some .fileobj                      -- `hasattr(filename, "write")`
+  | ["bytesio"] => some .fileobj
+  | ["other"] => some .other
+  | _ => none
+
+def hexVal (c : Char) : Option Nat :=
+  if '0' ≤ c ∧ c ≤ '9' then some (c.toNat - '0'.toNat)
+  else if 'a' ≤ c ∧ c ≤ 'f' then some (c.toNat - 'a'.toNat + 10)
+  else none
+
+def parseHexList : List Char → Option Bytes
+  | [] => some []
+  | a :: b :: r => do
+    let x ← hexVal a
+    let y ← hexVal b
+    let rest ← parseHexList r
+    pure ((16 * x + y) :: rest)
+  | _ => none
+
+def parseHex (t : String) : Option Bytes :=
+  if t = "-" then some [] else parseHexList t.toList
+
+def showWriter : Except Err Writer → String
+  | .error e => "err " ++ e.name
+  | .ok .raw => "ok raw"
+  | .ok (.codec n none) => "ok codec " ++ n ++ " default"
+  | .ok (.codec n (some l)) => "ok codec " ++ n ++ " " ++ toString l
+
+def showDetected : Detected → String
+  | .compat => "compat"
+  | .method n => "method " ++ n
+  | .notCompressed => "not-compressed"
+
+def hex2 (n : Nat) : String :=
+  let d := fun (k : Nat) => "0123456789abcdef".toList.getD k '?'
+  String.ofList [d (n / 16 % 16), d (n % 16)]
+
+def showTables : String :=
+  let cs := compressors.map (fun c =>
+    c.name ++ ":" ++ String.join (c.pfx.map hex2) ++ ":" ++ c.ext ++ ":" ++ (if c.available then "1" else "0")
+      ++ ":" ++ c.floatLevelErr)
+  "tables " ++ ",".intercalate cs ++ ";zf=" ++ String.join (zfilePrefix.map hex2)
+    ++ ";max=" ++ toString maxPrefixLen ++ ";lz4=" ++ (if lz4Installed then "1" else "0")
+    ++ ";zlevel=" ++ toString zlibDefaultLevel ++ ";hp=" ++ toString pickleHighestProtocol
+
+def handle (line : String) : String :=
+  match tokens line with
+  | ["resolve", a, t] =>
+    match parseArg? a, parseTarget t with
+    | some a, some t => showWriter (dumpHeader a t)
+    | _, _ => "bad-op"
+  | ["detect", h] =>
+    match parseHex h with
+    | some b => showDetected (detect b)
+    | none => "bad-op"
+  | ["start", h] =>
+    match parseHex h with
+    | some b => if isPickleStart b then "yes" else "no"
+    | none => "bad-op"
+  | ["tables"] => showTables
+  | _ => "bad-op"
+
+def main : IO Unit := lineLoop handle
